@@ -472,8 +472,7 @@ impl Local {
     /// Unpins the `Local`.
     #[inline]
     pub(crate) fn unpin(&self) {
-        let guard_count = self.guard_count.get();
-        if guard_count == 1 && !self.collecting.get() {
+        if self.guard_count.get() == 1 && !self.collecting.get() {
             self.collecting.set(true);
             while self.must_collect.get() {
                 self.must_collect.set(false);
@@ -485,6 +484,9 @@ impl Local {
             self.collecting.set(false);
         }
 
+        // Read the count only now: a deferred function that ran in the collection above may have
+        // created a guard that is still alive, in which case this is not the last guard any more.
+        let guard_count = self.guard_count.get();
         self.guard_count.set(guard_count - 1);
         if guard_count == 1 {
             self.epoch.store(Epoch::starting(), Ordering::Release);
@@ -509,6 +511,11 @@ impl Local {
     #[inline]
     pub(crate) fn repin_without_collect(&self) -> Epoch {
         let epoch = self.epoch.load(Ordering::Relaxed);
+        // Only the guard whose `unpin` is running the collection may be re-pinned. If a deferred
+        // function has left a guard of its own alive, its critical section must not be ended.
+        if self.guard_count.get() > 1 {
+            return epoch;
+        }
         let global_epoch = self.global().epoch.load(Ordering::Relaxed).pinned();
 
         // Update the local epoch only if the global epoch is greater than the local epoch.
